@@ -514,9 +514,13 @@ class Parser:
         self.next_token()
         if self._detect_routine_start():
             if (not self._context.get_routine(name).undefined
-                    or self._context.routine_was_defined(name)):
+                    or self._context.routine_was_defined(name)
+                    or self._context.has_symbol_typed(
+                        name, SymbolType.MACRO)):
                 return self.token_error('Already defined: "{}"')
             return self._routine_definition(name)
+        if self._context.routine_was_defined(name):
+            return self.trigger_error('Already defined: "{}"'.format(name))
         return self._macro_definition(name)
 
     def _detect_routine_start(self) -> bool:
